@@ -1,7 +1,7 @@
 #!/bin/bash
 # verify_seed.sh <ID> — confirm a seeded change in its scratch worktree /tmp/mut_<ID>:
 #  with the change: baseline suite (54) and feature suite (63) pass, demo fails; without: demo passes.
-id=$1; wt=/tmp/mut_$id
+id=$1; wt=${2:-/tmp/mut_$id}
 cd $wt || exit 2
 export CARGO_NET_OFFLINE=true
 [ -f patch.diff ] || { echo "no patch.diff"; exit 2; }
